@@ -362,6 +362,8 @@ pub fn build_hammer(seed: u64, threads: usize, reads_per_thread: usize) -> Scena
         heads.push(head);
     }
     junk.remove(&mut a);
+    // room for the owner's later in-place edits without moving the node storage
+    a.reserve(16);
     let live = live_ids(&a);
     let tops: Vec<NodeId> = live.iter().copied().filter(|i| a[*i].parent().is_none()).collect();
     let mut reads = Vec::new();
@@ -477,7 +479,15 @@ pub fn build_phased(seed: u64, threads: usize, reads_per_thread: usize) -> Phase
                     Edit::Remove(*rng.pick(&leaves))
                 }
             }
-            _ => Edit::MoveAfter(*rng.pick(&tops), *rng.pick(&tops)),
+            _ => {
+                // relink chain ends without allocating: move one top-level node behind another
+                let x = *rng.pick(&tops);
+                let mut last = *rng.pick(&tops);
+                while let Some(nx) = after[last].next_sibling() {
+                    last = nx;
+                }
+                Edit::MoveAfter(last, x)
+            }
         };
         apply_edit(&mut after, &e);
         edits.push(e);
